@@ -316,3 +316,34 @@ Proof.
   - intros [H1 [H2 [H3 [H4 H5]]]]. repeat split; auto. intros x Hx. apply andb_true_iff.
     apply (sym_pd_iff_le3 r x Hr). apply H5. exact Hx.
 Qed.
+
+(* ---------- the rows selected by the missing mask (audit finding 6) ----------
+   values[~missing] in numpy needs one flag per row and raises IndexError otherwise; the model's
+   keep_present is total and truncates to the shorter of the two lists (example below).  With one
+   flag per row -- the only situation the harness generates and the only one a geff that passed
+   structure validation can be in -- it is exactly "the rows whose flag is false, in order". *)
+(* keep_present with one flag per row: exactly the rows whose flag is false, in order *)
+Lemma keep_present_spec {A} (miss : list bool) (rows : list A) :
+  length miss = length rows ->
+  keep_present miss rows = map snd (filter (fun p => negb (fst p)) (combine miss rows)).
+Proof.
+  revert rows. induction miss as [|b ms IH]; intros [|r rs] H; try discriminate; [reflexivity|].
+  cbn in H. injection H as H. cbn [keep_present combine filter fst]. destruct b; cbn [negb map snd]; rewrite IH by exact H; reflexivity.
+Qed.
+Lemma keep_present_In {A} (miss : list bool) (rows : list A) r :
+  length miss = length rows ->
+  (In r (keep_present miss rows) <-> exists i, nth_error miss i = Some false /\ nth_error rows i = Some r).
+Proof.
+  revert rows. induction miss as [|b ms IH]; intros [|x rs] H; try discriminate.
+  - cbn. split; [tauto | intros [i [Hi _]]; destruct i; discriminate].
+  - cbn in H. injection H as H. cbn [keep_present]. destruct b.
+    + rewrite IH by exact H. split.
+      * intros [i Hi]. exists (S i). exact Hi.
+      * intros [[|i] [H1 H2]]; [cbn in H1; discriminate | exists i; split; assumption].
+    + cbn [In]. rewrite IH by exact H. split.
+      * intros [E|[i Hi]]; [exists 0%nat; subst; split; reflexivity | exists (S i); exact Hi].
+      * intros [[|i] [H1 H2]]; [left; cbn in H2; congruence | right; exists i; split; assumption].
+Qed.
+(* the totalisation: a mask shorter than the rows silently drops the tail (numpy raises IndexError there) *)
+Example keep_present_short : keep_present [false] [1%Z; 2%Z; 3%Z] = [1%Z].
+Proof. reflexivity. Qed.
